@@ -281,6 +281,8 @@ func (ev *evaluator) ident(name string) *Val {
 			}
 		}
 	}
+	// outer_<name>: a parameter, captured variable or local whose name collides with a contract keyword (`result`)
+	name = strings.TrimPrefix(name, "outer_")
 	fn := ev.fr.fn
 	for i, p := range fn.Params {
 		if p.Name() == name && i < len(ev.fr.params) {
